@@ -10,6 +10,7 @@ import (
 	"strings"
 	"sync"
 	"sync/atomic"
+	"syscall"
 	"time"
 
 	"mvdan.cc/sh/v3/syntax"
@@ -26,7 +27,7 @@ import (
 // each under recover().  With "linear", Parse of the source repeated 64x and 512x is timed (best of
 // three) and the ratio reported.
 // A watchdog goroutine ends the process with a "hang" record (the call, the input, all stacks) when
-// one call runs longer than the cap; the driver restarts after the offending source.
+// one call has used more than 6 s of CPU (or 90 s of wall time); the driver restarts after the source.
 func init() { hlib.Register("crash", crashEngine) }
 
 var (
@@ -35,14 +36,37 @@ var (
 	wdWhat  atomic.Value // string: description of the current call
 )
 
-const hangCap = 8 * time.Second
+// A call is a hang when this process has burnt hangCPU of CPU time since the call started (the
+// machine may be heavily loaded: wall-clock time alone proves nothing), or when it has not come
+// back after hangWall (blocked rather than spinning).
+const (
+	hangCPU  = 6 * time.Second
+	hangWall = 90 * time.Second
+)
+
+func cpuNow() int64 {
+	var ru syscall.Rusage
+	if syscall.Getrusage(syscall.RUSAGE_SELF, &ru) != nil {
+		return 0
+	}
+	return ru.Utime.Nano() + ru.Stime.Nano()
+}
 
 func watchdog() {
 	go func() {
+		var seen, cpuBase int64 // the call the watchdog last looked at, and the process CPU time then
 		for {
 			time.Sleep(250 * time.Millisecond)
 			st := wdStart.Load()
-			if st != 0 && time.Since(time.Unix(0, st)) > hangCap {
+			if st == 0 {
+				seen = 0
+				continue
+			}
+			if st != seen {
+				seen, cpuBase = st, cpuNow()
+				continue
+			}
+			if time.Duration(cpuNow()-cpuBase) > hangCPU || time.Since(time.Unix(0, st)) > hangWall {
 				buf := make([]byte, 1<<16)
 				n := runtime.Stack(buf, true)
 				what, _ := wdWhat.Load().(string)
